@@ -579,9 +579,18 @@ fn buffered_chunks_arg() -> Arg {
     Arg::new("buffered-chunks")
         .long("buffered-chunks")
         .value_name("COUNT")
-        .value_parser(value_parser!(usize))
+        .value_parser(parse_buffered_chunks)
         .global(true)
         .help(help)
+}
+
+fn parse_buffered_chunks(count: &str) -> Result<usize, String> {
+    match count.parse::<usize>() {
+        // With no chunk in flight nothing is ever processed.
+        Ok(0) => Err("must be at least 1".to_string()),
+        Ok(count) => Ok(count),
+        Err(err) => Err(err.to_string()),
+    }
 }
 
 fn output_file_arg() -> Arg {
